@@ -632,6 +632,13 @@ func runC05(c *eng.Ctx) {
 		}
 		c.Ob("CODEC-leveldb", eng.FuncName(fn)+" value-length", found, fn.Pos(), fmt.Sprintf("a stored value is decoded only when its length is OffsetSize+SizeSize = %d", want+w2))
 	}
+
+	// ---------------------------------------------------------------- PAIR-section
+	// every acquisition of a section's mutex is released on all paths. (Which accesses happen under it is not
+	// decided here: on the serving paths the map is guarded by the volume's data-file lock — C38 — and the section
+	// mutex is not what separates readers from writers.)
+	c.CheckLockPairs("PAIR-section", "weed/storage/needle_map", "CompactSection.RWMutex", nil)
+	c.Expect("PAIR-section", 4)
 }
 
 // arraysOf names the parallel arrays of CompactSection an instruction touches: the array whose
